@@ -33,6 +33,12 @@ enum Sp {
 #[allow(clippy::too_many_arguments)]
 fn call(tr: &mut Tr, case: &str, grid: &str, guess: &str, eos: &Arc<M>, sp: Sp, init: Option<&PhaseEquilibrium<M, 2>>, opts: SolverOptions, default: bool)
         -> Option<PhaseEquilibrium<M, 2>> {
+    call_(tr, case, grid, guess, eos, sp, init, opts, default, false)
+}
+
+#[allow(clippy::too_many_arguments)]
+fn call_(tr: &mut Tr, case: &str, grid: &str, guess: &str, eos: &Arc<M>, sp: Sp, init: Option<&PhaseEquilibrium<M, 2>>, opts: SolverOptions, default: bool, expect: bool)
+        -> Option<PhaseEquilibrium<M, 2>> {
     feos_core::verif::take();
     feos_core::verif::enable(true);
     let r = guarded(std::panic::AssertUnwindSafe(|| match sp {
@@ -45,7 +51,7 @@ fn call(tr: &mut Tr, case: &str, grid: &str, guess: &str, eos: &Arc<M>, sp: Sp, 
     for l in lines.iter().filter(|l| l.contains("\"ev\":\"PV")) { tr.raw(l); }
     let st = status(&r);
     let (spec, val) = match sp { Sp::T(t) => ("T", t), Sp::P(p) => ("p", p) };
-    let mut ev = json!({"ev":"PVCall","case":case,"grid":grid,"guess":guess,"status":st,"spec":spec,"val":fs(val),"default":default});
+    let mut ev = json!({"ev":"PVCall","case":case,"grid":grid,"guess":guess,"status":st,"spec":spec,"val":fs(val),"default":default,"expect":expect});
     if let Ok(Ok(v)) = &r {
         let (sv, sl) = (v.vapor(), v.liquid());
         let t = sv.temperature.to_reduced();
@@ -121,6 +127,29 @@ pub fn run(args: &Args) {
         call(&mut tr, name, "p/pc=1.3", "none", eos, Sp::P(pc * 1.3), None, d(), true);
         if let Some(pv) = &prev { call(&mut tr, name, "p/pc=1.3", "subcritical solution", eos, Sp::P(pc * 1.3), Some(pv), d(), true); }
         call(&mut tr, name, "p/pc=1e-9", "none", eos, Sp::P(pc * 1e-9), None, d(), true);
+    }
+    // the success clause of C04 on the shipped PC-SAFT records: a cold start (no initial state, default options) between 0.45 and 0.99 T_c finds the
+    // equilibrium; the temperatures of the quick tier are those where the fall-back from the ideal-gas to the spinodal start is needed most often
+    let files = ["pcsaft/gross2001.json", "pcsaft/gross2002.json", "pcsaft/gross2005_fit.json", "pcsaft/gross2005_literature.json", "pcsaft/gross2006.json",
+        "pcsaft/esper2023.json", "pcsaft/loetgeringlin2018.json", "pcsaft/rehner2020.json", "pcsaft/eller2022.json"];
+    let mut all: Vec<(String, feos_core::parameter::PureRecord<feos::pcsaft::PcSaftRecord>)> = vec![];
+    for f in files {
+        let recs: Vec<feos_core::parameter::PureRecord<feos::pcsaft::PcSaftRecord>> = serde_json::from_str(&std::fs::read_to_string(zoo::ppath(f)).unwrap()).unwrap();
+        for (i, r) in recs.into_iter().enumerate() { all.push((format!("{}[{}]", f, i), r)); }
+    }
+    let mut idx: Vec<usize> = (0..all.len()).collect();
+    rng.shuffle(&mut idx);
+    let keep = if args.thorough { all.len() } else { 300 };
+    let trs: Vec<f64> = if args.thorough { vec![0.45, 0.6, 0.75, 0.85, 0.9, 0.93, 0.96, 0.99] } else { vec![0.9, 0.93, 0.96] };
+    for &i in idx.iter().take(keep) {
+        let (name, rec) = &all[i];
+        let Ok(p) = PcSaftParameters::new_pure(rec.clone()) else { continue };
+        let eos = Arc::new(M::PcSaft(PcSaft::new(Arc::new(p))));
+        let Ok(cp) = State::critical_point(&eos, None, None, d()) else { continue };
+        let tc = cp.temperature.to_reduced();
+        for &tr_ in &trs {
+            call_(&mut tr, name, &format!("T/Tc={}", tr_), "none", &eos, Sp::T(tc * tr_), None, d(), true, true);
+        }
     }
     let n = tr.finish();
     println!("vlepure trace: {} lines", n);
